@@ -464,6 +464,12 @@ pub fn classify(src: &[u8], o: &Opts, clause: &str) -> String {
         let first = a.iter().zip(b.iter()).position(|(x, y)| x != y).unwrap_or(a.len().min(b.len()));
         let kind = a.get(first).map(|t| format!("{:?}", t.0)).unwrap_or_else(|| "END".into());
         let grows = match (a.get(first), b.get(first)) { (Some(x), Some(y)) => x.0 == y.0 && y.1.starts_with(&x.1), _ => false };
+        // the KINDS of earlier tokens can differ as a consequence (the parser reads `%` differently once
+        // the text after it changed): look at the first token whose TEXT differs
+        let first_text = a.iter().zip(b.iter()).position(|(x, y)| x.1 != y.1);
+        let (grows, kind) = match first_text.and_then(|i| Some((a.get(i)?, b.get(i)?))) {
+            Some((x, y)) if first_text != Some(first) && format!("{:?}", x.0) == "UNKNOWN" && x.0 == y.0 && y.1.starts_with(&x.1) && y.1.len() > x.1.len() => (true, "UNKNOWN".to_string()),
+            _ => (grows, kind) };
         format!("tokens:{}:{}", valid, if ext { "last-token-extended-by-appended-line-break".to_string() }
             else if grows && kind == "UNKNOWN" { "unterminated-token-absorbs-following-text-after-line-join".to_string() } else { format!("other:first-difference-at-{}", kind) })
     }
@@ -536,6 +542,11 @@ fn describe(kind: SyntaxKind, text: &[u8]) -> String {
 ///    else where the comment stands;
 ///  * a change next to (or inside) the text of a syntax-error node;
 ///  * anything else: the coarse kinds of the tokens around the first changed gap.
+/// a comment between the `=` and the `{` of a hex pattern (`$a = /* c */ { .. }`): the first pass
+/// puts that comment on its own line, the second takes the line break after it for one INSIDE the
+/// pattern, treats the pattern as multi-line and breaks the line before its `}`
+pub const HEX_CLOSE: &str = "hex-pattern-with-comment-before-opening-brace:line-break-added-before-closing-brace";
+
 pub fn diff_fingerprint(p1: &[u8], p2: &[u8]) -> String {
     let (a, b) = (sig_spans(p1), sig_spans(p2));
     if a.len() != b.len() { return "token-count-changes".into(); }
@@ -576,6 +587,16 @@ pub fn diff_fingerprint(p1: &[u8], p2: &[u8]) -> String {
         let first = j == 0 || nl(&before) > 0;
         let follow = if j + 1 >= n || nl(&after) > 0 { "last-on-line" } else if is_comment(j as isize + 1) { "followed-by-comment" } else { "followed-by-code" };
         format!("{}+{}", if first { "first-on-line" } else { "after-code" }, follow) };
+    // is token i the closing brace of a hex pattern whose opening brace has a comment in front of it?
+    let hex_close = |i: usize| -> bool {
+        if !(i < n && &p1[a[i].1.clone()] == b"}") { return false; }
+        let mut j = i; let mut open = None;
+        while j > 0 { j -= 1; let t = &p1[a[j].1.clone()]; if t == b"{" { open = Some(j); break; } if t == b"}" { break; } }
+        match open { None => false, Some(o) => {
+            let mut k = o; let mut comment = false;
+            while k > 0 && is_comment(k as isize - 1) { k -= 1; comment = true; }
+            comment && k > 0 && &p1[a[k - 1].1.clone()] == b"=" } }
+    };
     let mut first_other: Option<String> = None;
     let mut first_error: Option<String> = None;
     for i in 0..=n {
@@ -594,6 +615,10 @@ pub fn diff_fingerprint(p1: &[u8], p2: &[u8]) -> String {
                         else if t == ":" && cj >= 2 { format!("{}:", String::from_utf8_lossy(&p1[a[cj - 2].1.clone()]).chars().filter(|c| c.is_ascii_lowercase()).take(12).collect::<String>()) }
                         else if t == "{" || t == "}" || t == "(" || t == "=" { t } else { coarse(cj as isize - 1).to_lowercase() } };
                     fp.push_str(&format!(":follows-{}", prev));
+                    // the closing brace of a hex pattern whose opening brace has a comment in front
+                    // of it (`$a = /* c */ { .. }`): the first pass puts that comment on its own
+                    // line, the second takes the line break after it for one INSIDE the pattern
+                    if hex_close(i) { return HEX_CLOSE.to_string(); }
                 }
                 if change.starts_with("spaces-") {
                     // alignment of comments: are tabs involved, and is there another comment earlier on the comment's line
@@ -602,8 +627,10 @@ pub fn diff_fingerprint(p1: &[u8], p2: &[u8]) -> String {
                     while j > 0 && nl(&gap_of(p1, &a, j)) == 0 { j -= 1; if is_comment(j as isize) { earlier = true; break; } }
                     fp.push_str(&format!(":{}:{}", if tabs { "tabs-in-the-gap" } else { "no-tabs-in-the-gap" }, if earlier { "another-comment-earlier-on-the-line" } else { "only-comment-on-the-line" }));
                 }
+                if touches_error(i) { fp.push_str(":next-to-syntax-error"); }
                 return fp;
             }
+            if change == "line-break-added" && hex_close(i) { return HEX_CLOSE.to_string(); }
             if touches_error(i) { if first_error.is_none() { first_error = Some("next-to-the-text-of-a-syntax-error".to_string()); } }
             else if first_other.is_none() { first_other = Some(format!("other:{}:after[{}]-before[{}]", change, coarse(i as isize - 1), coarse(i as isize))); }
         }
@@ -613,6 +640,9 @@ pub fn diff_fingerprint(p1: &[u8], p2: &[u8]) -> String {
                 let l1: Vec<&[u8]> = t1.split(|c| *c == b'\n').collect(); let l2: Vec<&[u8]> = t2.split(|c| *c == b'\n').collect();
                 let k = l1.iter().zip(l2.iter()).position(|(x, y)| x != y).unwrap_or(0);
                 let blank = |l: &[u8]| l.iter().all(|c| *c == b' ' || *c == b'\t' || *c == b'\r');
+                // the lines of a comment move with the column of the comment: when the layout already
+                // changed earlier (away from comments and syntax errors), that change is the one to describe
+                if let Some(o) = &first_other { return o.clone(); }
                 return if k < l1.len() && k < l2.len() && blank(l1[k]) && blank(l2[k]) { "comment-text:blank-line-inside-comment-changes".into() }
                        else {
                            let mut earlier = false; let mut non_ascii = false; let mut j = i;
@@ -636,7 +666,11 @@ pub fn diff_fingerprint(p1: &[u8], p2: &[u8]) -> String {
 /// is reported as something new.
 pub fn idempotence_family(fp: &str) -> Option<&'static str> {
     if fp.starts_with("comment-text:blank-line") { return Some("comment-text:blank-line-inside-comment-changes"); }
-    if fp.starts_with("comment-text:continuation-lines-reindented") { return None; }
+    // recorded only for a comment that follows ANOTHER COMMENT on its line (write_to does not count an
+    // earlier comment when it indents the continuation lines, the comment stage does when it strips them)
+    if fp.starts_with("comment-text:continuation-lines-reindented") {
+        return if fp.contains(":after-code+") && fp.contains(":another-comment-earlier-on-the-line:") { Some("comment-text:continuation-lines-reindented:comment-follows-another-comment-on-its-line") } else { None };
+    }
     let p: Vec<&str> = fp.split(':').collect();
     if p.len() < 4 || p[0] != "next-to-comment" { return None; }
     let (what, pos, other) = (p[1], p[2], p[3]);
@@ -647,7 +681,17 @@ pub fn idempotence_family(fp: &str) -> Option<&'static str> {
     let earlier = p.get(5) == Some(&"another-comment-earlier-on-the-line");
     match (change, side) {
         ("line-break-added", "after") if other == "other-side-END" => Some("next-to-comment:line-break-added-after-the-last-comment-of-the-file"),
-        ("line-break-added", "after") if block && (pos == "first-on-line+followed-by-code" || pos == "first-on-line+followed-by-comment") => None,
+        // a block comment that the first pass leaves first on its line with something after it: recorded
+        // for the places where the unchanged formatter does that
+        ("line-break-added", "after") if block && pos == "first-on-line+followed-by-code" => match p.get(4) {
+            Some(&"follows-comment") => Some("next-to-comment:line-break-added-after-block-comment-first-on-its-line-followed-by-code:after-another-comment"),
+            Some(&"follows-condition") => Some("next-to-comment:line-break-added-after-block-comment-first-on-its-line-followed-by-code:after-condition-colon"),
+            Some(&"follows-{") => Some("next-to-comment:line-break-added-after-block-comment-first-on-its-line-followed-by-code:after-opening-brace"),
+            _ => None },
+        ("line-break-added", "after") if block && pos == "first-on-line+followed-by-comment" => match p.get(4) {
+            Some(&"follows-strings") | Some(&"follows-meta") | Some(&"follows-condition") | Some(&"follows-{") =>
+                Some("next-to-comment:line-break-added-after-block-comment-first-on-its-line-followed-by-comment:after-section-colon-or-brace"),
+            _ => None },
         ("line-break-added", "after") if !block && pos == "first-on-line+last-on-line" && other == "other-side-CODE" => Some("next-to-comment:empty-line-added-after-a-line-comment-on-its-own-line"),
         ("line-break-added", "before") if pos == "first-on-line+last-on-line" && other == "other-side-CODE" => Some("next-to-comment:empty-line-added-before-a-comment-on-its-own-line"),
         ("line-break-removed", "after") if pos == "after-code+last-on-line" => Some("next-to-comment:empty-line-removed-after-a-tail-comment"),
@@ -692,9 +736,14 @@ pub fn classify_idempotence(src: &[u8], o: &Opts) -> String {
     }
     let ob = observe_with(src, o, false);
     let fp = diff_fingerprint(&ob.out1_text, &ob.out2_text);
+    if fp == HEX_CLOSE { return format!("idempotence:{}", HEX_CLOSE); }
     // the mechanisms around comments are the same in sources with and without syntax errors
     if fp.starts_with("next-to-comment:") || fp.starts_with("comment-text:") {
-        return match idempotence_family(&fp) { Some(f) => format!("idempotence:{}", f), None => format!("idempotence:{}", fp) };
+        return match idempotence_family(&fp) {
+            Some(f) => format!("idempotence:{}", f),
+            // none of the recorded places around comments, but right at the text of a syntax error
+            None if fp.ends_with(":next-to-syntax-error") => "idempotence:invalid-source:next-to-the-text-of-a-syntax-error".to_string(),
+            None => format!("idempotence:{}", fp) };
     }
     if fp.starts_with("other:") {
         let spans: Vec<std::ops::Range<usize>> = sig_spans(src).into_iter().filter(|(k, _)| *k == SyntaxKind::COMMENT).map(|(_, r)| r).collect();
@@ -855,6 +904,12 @@ fn aligned_comment_source(rng: &mut Rng, tab: usize) -> String {
             let gap = *rng.pick(&["  ", " ", "\t", "    "]);
             out.push_str(gap);
             let col = width(indent) + width(code) + width(gap);
+            if rng.chance(1, 4) {
+                // a multi-line block comment after the code, continuation lines indented beyond its start
+                let k = 1 + rng.below(4) as usize;
+                out.push_str(&format!("/* l1\n{}l2\n{}l3 */\n", " ".repeat(col + k), ws(rng, col + k)));
+                return;
+            }
             out.push_str(*rng.pick(&["// a", "// first", "/* a */"]));
             for _ in 0..(1 + rng.below(2)) {
                 out.push('\n');
@@ -868,8 +923,15 @@ fn aligned_comment_source(rng: &mut Rng, tab: usize) -> String {
     let ind1 = *rng.pick(&["\t", "  ", "    ", ""]);
     let ind2 = *rng.pick(&["\t\t", "    ", "\t  ", "      "]);
     out.push_str("rule aligned {\n");
-    if rng.chance(1, 2) { line(rng, &mut out, ind1, "meta:"); line(rng, &mut out, ind2, "author = \"x\""); line(rng, &mut out, ind2, "n = 1"); }
-    if rng.chance(2, 3) { line(rng, &mut out, ind1, "strings:"); line(rng, &mut out, ind2, "$a = \"abc\""); line(rng, &mut out, ind2, "$b = { 01 02 03 }"); }
+    if rng.chance(1, 4) { out.push_str(ind1); out.push_str("meta: /* c */ author = \"ñ\" n = 1\n"); }
+    else if rng.chance(1, 2) { line(rng, &mut out, ind1, "meta:"); line(rng, &mut out, ind2, "author = \"ñandú\""); line(rng, &mut out, ind2, "n = 1"); }
+    if rng.chance(1, 3) {
+        // section header, a block comment and the first definition on one line
+        out.push_str(ind1); out.push_str(*rng.pick(&["strings: /* c */ $a = \"abc\" $b = \"ñññ 日本\"\n", "strings:/* c */$a = \"abc\"\n" ]));
+        if rng.chance(1, 2) { line(rng, &mut out, ind2, "$b = \"ñññ 日本\""); } else { line(rng, &mut out, ind2, "$b = { 01 02 03 }"); }
+    }
+    else if rng.chance(1, 2) { line(rng, &mut out, ind1, "strings:"); line(rng, &mut out, ind2, "$a = \"ñññ 日本\""); line(rng, &mut out, ind2, "$b = { 01 02 03 }"); }
+    else if rng.chance(2, 3) { line(rng, &mut out, ind1, "strings:"); line(rng, &mut out, ind2, "$a = \"abc\""); line(rng, &mut out, ind2, "$b = { 01 02 03 }"); }
     else { line(rng, &mut out, ind1, "strings:"); line(rng, &mut out, ind2, "$a = \"abc\""); line(rng, &mut out, ind2, "$b = /x+/"); }
     line(rng, &mut out, ind1, "condition:");
     line(rng, &mut out, ind2, "$a and");
